@@ -645,3 +645,37 @@ Theorem dollar_inside_segment_refuted m :
              [("$mul", VDoc [("ab$[].c", VInt32 2)])] false [] 0 =
   Ok ([("a", VArr [VDoc [("c", VInt32 2)]]); ("k", VInt32 0)], [("a.0.c", VInt32 2)]).
 Proof. reflexivity. Qed.
+
+(* structural equality decides equality: docsEqual is exactly "same document" *)
+Lemma value_eqb_eq : forall a b, value_eqb a b = true -> a = b.
+Proof.
+  apply (value_ind' (fun a => forall b, value_eqb a b = true -> a = b)).
+  intros a IH b H. destruct a; destruct b; cbn [value_eqb] in H; try discriminate; try reflexivity.
+  - apply Z.eqb_eq in H. congruence.
+  - apply Z.eqb_eq in H. congruence.
+  - apply Z.eqb_eq in H. congruence.
+  - apply andb_true_iff in H. destruct H as [H1 H2]. apply Z.eqb_eq in H1, H2. congruence.
+  - apply String.eqb_eq in H. congruence.
+  - f_equal. cbn [sub] in IH. revert d0 H. induction d as [|[k x] t IHt]; intros [|[k' y] t'] H; try discriminate; [reflexivity|].
+    inversion IH as [|? ? Hx Ht]; subst. cbn [snd] in Hx.
+    apply andb_true_iff in H. destruct H as [H H3]. apply andb_true_iff in H. destruct H as [H1 H2].
+    apply String.eqb_eq in H1. subst k'. rewrite (Hx _ H2). f_equal. apply IHt; assumption.
+  - f_equal. cbn [sub] in IH. revert a0 H. induction a as [|x t IHt]; intros [|y t'] H; try discriminate; [reflexivity|].
+    inversion IH as [|? ? Hx Ht]; subst.
+    apply andb_true_iff in H. destruct H as [H1 H2]. rewrite (Hx _ H1). f_equal. apply IHt; assumption.
+  - apply andb_true_iff in H. destruct H as [H1 H2]. apply Z.eqb_eq in H1. apply String.eqb_eq in H2. congruence.
+  - apply String.eqb_eq in H. congruence.
+  - apply Bool.eqb_prop in H. congruence.
+  - apply Z.eqb_eq in H. congruence.
+  - apply andb_true_iff in H. destruct H as [H1 H2]. apply Z.eqb_eq in H1, H2. congruence.
+  - apply andb_true_iff in H. destruct H as [H1 H2]. apply String.eqb_eq in H1, H2. congruence.
+Qed.
+
+(* a document is counted as modified exactly when it is a different document *)
+Theorem counted_modified_iff before after : counted_modified before after = true <-> before <> after.
+Proof.
+  unfold counted_modified. split.
+  - intros H E. subst. rewrite value_eqb_refl in H. discriminate.
+  - intro H. destruct (value_eqb (VDoc before) (VDoc after)) eqn:E; [|reflexivity].
+    apply value_eqb_eq in E. congruence.
+Qed.
